@@ -2,10 +2,14 @@ import Srctools.Model.C15
 /-!
 # C15 — model of `VTF.save` / `VTF.read` at the byte level
 
-`saveFile` produces the exact bytes `VTF.save` writes for a texture built with the constructor
-(frames either hold RGBA data or are "cleared" = `none`), including `compute_mipmaps`, the
-regeneration of the thumbnail, the resource table and the particle sheet resource.
-`readFile` parses such bytes the way `VTF.read` does, up to the frame table (key, size, offset).
+`saveFile` produces the exact bytes `VTF.save` writes (header, resource table, resource blocks,
+particle sheet, `compute_mipmaps`, regeneration of the thumbnail, the image data), for a texture
+whose frames hold RGBA data, are cleared (`data = none`), or are still *lazy* (`fileData`: the pixels
+a not-yet-loaded frame of a file that was read would load).  `readFile` parses such bytes the way
+`VTF.read` does, up to the frame table (key, size, offset); `decodeAt` is `Frame.load` of one entry.
+
+Everything is written as plain structural recursion over lists (no loops with mutable state), so
+that `Props/C15.lean` can prove `readFile (saveFile v) = view v`.
 
 Floats (`reflectivity`, `bumpmap_scale`, sheet durations and coordinates) are carried as their four
 little-endian float32 bytes: the model is about layout, not about float rounding.
@@ -23,6 +27,9 @@ def leDecode : List Nat → Nat
   | b :: bs => b + 256 * leDecode bs
 
 def zeros (n : Nat) : List Nat := List.replicate n 0
+
+/-- `n` elements starting at `off` (fewer at the end of the list, like `file.read`). -/
+def slice (l : List Nat) (off n : Nat) : List Nat := (l.drop off).take n
 
 /-- One entry of `VTF.resources`. `isBytes`: the data is a byte block stored later in the file,
 otherwise a 32-bit integer stored inline. -/
@@ -46,10 +53,13 @@ structure SheetSeq where
   frames : List SheetFrame
 deriving DecidableEq, Repr, Inhabited
 
+/-- A `Frame`: `data` is `_data` (`none` = cleared / not loaded yet); `fileData` is present while the
+frame is still lazy (`_fileinfo` set): the RGBA content `load()` will read from the file. -/
 structure FrameM where
   w : Nat
   h : Nat
   data : Option (List Nat)
+  fileData : Option (List Nat) := none
 deriving DecidableEq, Repr, Inhabited
 
 abbrev Key := Nat × Nat × Nat
@@ -113,16 +123,25 @@ def blank (w h : Nat) : List Nat := (List.replicate (w * h) [0, 0, 0, 255]).flat
 def lookupFrame (fr : List (Key × FrameM)) (k : Key) : Option FrameM :=
   (fr.find? (fun p => p.1 == k)).map (·.2)
 
+/-- `Frame.load()`: a lazy frame takes its content from the file, otherwise a cleared frame
+becomes blank. -/
+def FrameM.load (fr : FrameM) : FrameM :=
+  match fr.fileData with
+  | some d => { fr with data := some d, fileData := none }
+  | none => { fr with data := some (fr.data.getD (blank fr.w fr.h)) }
+
 /-- `Frame.rescale_from(larger)`'s size check. -/
 def rescaleOK (w h lw lh : Nat) : Bool :=
   (w == lw || 2 * w == lw) && (h == lh || 2 * h == lh)
 
-/-- `compute_mipmaps(filter)` for one `(frame, depth|side)`: the final data of levels `0 .. n-1`. -/
+/-- `compute_mipmaps(filter)` for one `(frame, depth|side)`: the state of levels `0 .. n-1`
+afterwards. Level 0 is loaded; a higher level whose `_data` is `None` is regenerated from the level
+below it (a lazy frame keeps its `fileData`: the file content wins when it is loaded later). -/
 def mipChain (fr : List (Key × FrameM)) (filt f d : Nat) : Nat → Except Err (List FrameM)
   | 0 => pure []
   | 1 => do
     let some f0 := lookupFrame fr (f, d, 0) | throw .key
-    pure [{ f0 with data := some (f0.data.getD (blank f0.w f0.h)) }]
+    pure [f0.load]
   | m + 2 => do
     let prev ← mipChain fr filt f d (m + 1)
     let some p := prev.getLast? | throw .key
@@ -134,35 +153,38 @@ def mipChain (fr : List (Key × FrameM)) (filt f d : Nat) : Nat → Except Err (
       let some out := scaleDown filt p.w p.h cur.w cur.h (p.data.getD []) | throw .rescale
       pure (prev ++ [{ cur with data := some out }])
 
+/-- `(frame, depth|side)` pairs of the object's own range. -/
+def chainKeys (v : Vtf) : List (Nat × Nat) :=
+  (List.range v.frameCount).flatMap fun f => (depthSeq v.flags v.verMinor v.depth).map fun d => (f, d)
+
 /-- All frames after `compute_mipmaps(filter)`: for every `(f, d)` of the object's own range, levels
 `0..mc-1` are replaced by the chain; other entries are unchanged. -/
 def computeMips (v : Vtf) (filt : Nat) : Except Err (List (Key × FrameM)) := do
-  let dseq := depthSeq v.flags v.verMinor v.depth
-  let mut out : List (Key × FrameM) := []
-  for f in List.range v.frameCount do
-    for d in dseq do
-      let ch ← mipChain v.frames filt f d (max v.mipCount 1)
-      out := out ++ (ch.zipIdx.map fun (fm, m) => ((f, d, m), fm))
-  -- entries not covered keep their state
-  let rest := v.frames.filter fun p => !(out.any fun q => q.1 == p.1)
-  pure (out ++ rest)
+  let chains ← (chainKeys v).mapM fun (f, d) => do
+    let ch ← mipChain v.frames filt f d (max v.mipCount 1)
+    pure (ch.zipIdx.map fun (fm, m) => ((f, d, m), fm))
+  let out := chains.flatten
+  pure (out ++ v.frames.filter fun p => !(out.any fun q => q.1 == p.1))
+
+/-- one step of the thumbnail loop of `compute_mipmaps`. -/
+def lowStep (frames : List (Key × FrameM)) (side filt : Nat) (low : FrameM) (m : Nat) :
+    Except Err FrameM := do
+  let some fr := lookupFrame frames (0, side, m) | throw .key
+  if fr.w / 2 == low.w && fr.h / 2 == low.h then
+    if !rescaleOK low.w low.h fr.w fr.h then throw .rescale
+    match fr.data with
+    | some d =>
+      let some out := scaleDown filt fr.w fr.h low.w low.h d | throw .rescale
+      pure { low with data := some out }
+    | none => pure { low with data := some (low.data.getD (blank low.w low.h)) }
+  else pure low
 
 /-- The thumbnail after `compute_mipmaps(filter)`: regenerated from the level that is twice its size
 (always, even when it held data); untouched when there is no such level. -/
-def computeLow (v : Vtf) (frames : List (Key × FrameM)) (filt : Nat) : Except Err FrameM := do
-  let mut low := v.low
+def computeLow (v : Vtf) (frames : List (Key × FrameM)) (filt : Nat) : Except Err FrameM :=
   if v.lowFmt ≠ fmtNone then
-    let side := if v.flags &&& envmapFlag ≠ 0 then 3 else 0
-    for m in List.range v.mipCount do
-      let some fr := lookupFrame frames (0, side, m) | throw .key
-      if fr.w / 2 == low.w && fr.h / 2 == low.h then
-        if !rescaleOK low.w low.h fr.w fr.h then throw .rescale
-        match fr.data with
-        | some d =>
-          let some out := scaleDown filt fr.w fr.h low.w low.h d | throw .rescale
-          low := { low with data := some out }
-        | none => low := { low with data := some (low.data.getD (blank low.w low.h)) }
-  pure low
+    (List.range v.mipCount).foldlM (lowStep frames (if v.flags &&& envmapFlag ≠ 0 then 3 else 0) filt) v.low
+  else pure v.low
 
 /-- `VTF.compute_mipmaps(filter)` as a state change. -/
 def applyCompute (v : Vtf) (filt : Nat) : Except Err Vtf := do
@@ -170,99 +192,144 @@ def applyCompute (v : Vtf) (filt : Nat) : Except Err Vtf := do
   let low ← computeLow v frames filt
   pure { v with frames, low }
 
+/-- `Frame.clear()`. -/
+def FrameM.clear (fr : FrameM) : FrameM := { fr with data := none, fileData := none }
+
 /-- `VTF.clear_mipmaps(after=k)`: every level above `k` and the thumbnail are cleared. -/
 def applyClear (v : Vtf) (after : Nat) : Vtf :=
-  { v with frames := v.frames.map fun (k, fr) => if k.2.2 > after then (k, { fr with data := none }) else (k, fr),
-           low := { v.low with data := none } }
+  { v with frames := v.frames.map fun (k, fr) => if k.2.2 > after then (k, fr.clear) else (k, fr),
+           low := v.low.clear }
 
 /-- operations applied to the object before saving: `(0, k)` = `clear_mipmaps(after=k)`,
-`(1, f)` = `compute_mipmaps(FilterMode(f))`. -/
+`(1, f)` = `compute_mipmaps(FilterMode(f))`, `(2, _)` = `VTF.load()`. -/
 def applyOps (v : Vtf) : List (Nat × Nat) → Except Err Vtf
   | [] => pure v
   | (0, k) :: ops => applyOps (applyClear v k) ops
-  | (_, f) :: ops => do applyOps (← applyCompute v f) ops
+  | (1, f) :: ops => do applyOps (← applyCompute v f) ops
+  | (_, _) :: ops =>
+    applyOps { v with frames := v.frames.map fun (k, fr) => (k, fr.load), low := v.low.load } ops
 
-/-- `_format_funcs.save(fmt, frame._data, bytearray(frame_size), w, h)`. -/
-def encodeFrame (fmt : Nat) (fr : FrameM) : Except Err (List Nat) := do
+/-- `_format_funcs.save(fmt, frame._data, bytearray(frame_size), w, h)` of a loaded frame. -/
+def encodeFrame (fmt : Nat) (fr : FrameM) : Except Err (List Nat) :=
   let data := fr.data.getD (blank fr.w fr.h)
   if data.length ≠ 4 * fr.w * fr.h then throw .buffer
-  let c := codecOf fmt
-  if !c.hasSave then throw .notImpl
-  pure (saveImg c data)
+  else if !(codecOf fmt).hasSave then throw .notImpl
+  else pure (saveImg (codecOf fmt) data)
+
+/-! ### particle sheet -/
+
+def sheetFrameBytes (version : Nat) (fr : SheetFrame) : List Nat :=
+  fr.dur ++ (if version = 1 then fr.coords else fr.coords.take 16)
+
+def sheetSeqBytes (version : Nat) (s : SheetSeq) : List Nat :=
+  le 4 s.num ++ zeros 3 ++ [if s.clamp then 1 else 0] ++ le 4 s.frames.length ++ s.duration ++
+    (s.frames.map (sheetFrameBytes version)).flatten
 
 /-- `SheetSequence.make_data(sequences, version)`. -/
 def sheetData (seqs : List SheetSeq) (version : Nat) : List Nat :=
-  le 4 version ++ le 4 seqs.length ++ seqs.flatMap fun s =>
-    le 4 s.num ++ zeros 3 ++ [if s.clamp then 1 else 0] ++ le 4 s.frames.length ++ s.duration ++
-      s.frames.flatMap fun fr =>
-        fr.dur ++ (if version = 1 then fr.coords else fr.coords.take 16)
+  le 4 version ++ le 4 seqs.length ++ (seqs.map (sheetSeqBytes version)).flatten
 
 def idLow : List Nat := [1, 0, 0]
 def idHigh : List Nat := [0x30, 0, 0]
 def idSheet : List Nat := [0x10, 0, 0]
 
+/-! ### writing -/
+
+/-- the data blocks of the byte resources, in order: 4-byte length + data. -/
+def resBlocks : List Res → List (List Nat)
+  | [] => []
+  | r :: rs => if r.isBytes then (le 4 r.data.length ++ r.data) :: resBlocks rs else resBlocks rs
+
+/-- the file offset stored for each resource (0 for inline ones), blocks starting at `start`. -/
+def resOffsets (start : Nat) : List Res → List Nat
+  | [] => []
+  | r :: rs =>
+    if r.isBytes then start :: resOffsets (start + 4 + r.data.length) rs else 0 :: resOffsets start rs
+
+/-- one 8-byte entry of the resource table. -/
+def resEntry (r : Res) (off : Nat) : List Nat :=
+  if r.isBytes then r.id ++ [r.flags &&& 0xFD] ++ le 4 off else r.id ++ [r.flags ||| 2] ++ le 4 r.ival
+
+def resEntries : List Res → List Nat → List (List Nat)
+  | r :: rs, o :: os => resEntry r o :: resEntries rs os
+  | _, _ => []
+
+def hasSheetRes (v : Vtf) : Bool := !v.sheet.isEmpty
+
+def resCount (v : Vtf) : Nat := v.res.length + 2 + (if hasSheetRes v then 1 else 0)
+
+/-- bytes before the resource table / padding: 63, plus the depth field from 7.2. -/
+def preLen (minor : Nat) : Nat := 63 + (if minor ≥ 2 then 2 else 0)
+
+def headerSize (v : Vtf) (minor : Nat) : Nat :=
+  if minor ≥ 3 then preLen minor + 15 + 8 * resCount v else preLen minor + 15
+
+/-- the block of the particle sheet resource (present from 7.3 when there are sequences). -/
+def sheetBlock (v : Vtf) (minor sheetVer : Nat) : List Nat :=
+  if minor ≥ 3 ∧ hasSheetRes v then
+    le 4 (sheetData v.sheet sheetVer).length ++ sheetData v.sheet sheetVer
+  else []
+
+/-- all resource data between the header and the images. -/
+def dataBlocks (v : Vtf) (minor sheetVer : Nat) : List Nat :=
+  (if minor ≥ 3 then (resBlocks v.res).flatten else []) ++ sheetBlock v minor sheetVer
+
+def sheetOff (v : Vtf) (minor : Nat) : Nat :=
+  headerSize v minor + (if minor ≥ 3 then (resBlocks v.res).flatten.length else 0)
+
+def lowOff (v : Vtf) (minor sheetVer : Nat) : Nat :=
+  headerSize v minor + (dataBlocks v minor sheetVer).length
+
+/-- the fields of the fixed header, in order (`<4s II` + `_HEADER` + `<H` depth from 7.2). -/
+def hdrFields (v : Vtf) (minor : Nat) (asw : Bool) : List (List Nat) :=
+  [[86, 84, 70, 0], le 4 7, le 4 minor, le 4 (headerSize v minor), le 2 v.width, le 2 v.height,
+   le 4 v.flags, le 2 v.frameCount, le 2 v.firstFrame, zeros 4, v.refl, zeros 4, v.bump,
+   le 4 (binValue v.fmt asw), le 1 v.mipCount, le 4 (binValue v.lowFmt asw), le 1 v.low.w,
+   le 1 v.low.h] ++ (if minor ≥ 2 then [le 2 v.depth] else [])
+
+/-- resource table (from 7.3) or 15 bytes of padding. -/
+def resTable (v : Vtf) (minor sheetVer : Nat) (lowLen : Nat) : List Nat :=
+  if minor ≥ 3 then
+    zeros 3 ++ le 4 (resCount v) ++ zeros 8 ++
+      (resEntries v.res (resOffsets (headerSize v minor) v.res)).flatten ++
+      idLow ++ [0] ++ le 4 (lowOff v minor sheetVer) ++
+      idHigh ++ [0] ++ le 4 (lowOff v minor sheetVer + lowLen) ++
+      (if hasSheetRes v then idSheet ++ [0] ++ le 4 (sheetOff v minor) else [])
+  else zeros 15
+
+/-- The whole file, given the encoded thumbnail and the encoded frames (in `fileKeys` order). -/
+def fileBytes (v : Vtf) (minor sheetVer : Nat) (asw : Bool) (lowBytes : List Nat)
+    (frameBlocks : List (List Nat)) : List Nat :=
+  (hdrFields v minor asw).flatten ++ resTable v minor sheetVer lowBytes.length ++
+    dataBlocks v minor sheetVer ++ lowBytes ++ frameBlocks.flatten
+
+/-- the frame written for key `k`: a cubemap created as 7.5+ has no sphere map (side 6), older
+versions get a blank one. -/
+def frameFor (v : Vtf) (k : Key) : Except Err FrameM :=
+  match lookupFrame v.frames k with
+  | some fr => pure fr
+  | none =>
+    if k.2.1 = 6 ∧ v.flags &&& envmapFlag ≠ 0 then
+      pure ⟨max (v.width >>> k.2.2) 1, max (v.height >>> k.2.2) 1, none, none⟩
+    else throw .key
+
+/-- The part of `VTF.save` after `compute_mipmaps()`: load and encode the thumbnail and every frame
+of the version being written, and lay the file out. -/
+def assemble (v : Vtf) (minor sheetVer : Nat) (asw : Bool) : Except Err (List Nat) := do
+  let lowBytes ← (if v.lowFmt ≠ fmtNone then encodeFrame v.lowFmt v.low.load else pure [])
+  let blocks ← (fileKeys v.mipCount v.frameCount (depthSeq v.flags minor v.depth)).mapM fun k => do
+    let fr ← frameFor v k
+    encodeFrame v.fmt fr.load
+  pure (fileBytes v minor sheetVer asw lowBytes blocks)
+
 /-- `VTF.save(file, version=(7, minor), sheet_seq_version, asw_or_later)`: the bytes written. -/
-def saveFile (v : Vtf) (minor sheetVer : Nat) (asw : Bool) : Except Err (List Nat) := do
+def saveFile (v : Vtf) (minor sheetVer : Nat) (asw : Bool) : Except Err (List Nat) :=
   if minor > 5 then throw .version
-  if minor < 2 ∧ v.depth > 1 then throw .depthVersion
-  let hasRes := minor ≥ 3
-  let hasSheet := !v.sheet.isEmpty
-  let resCount := v.res.length + 2 + (if hasSheet then 1 else 0)
-  let preLen := 63 + (if minor ≥ 2 then 2 else 0)
-  let headerSize := if hasRes then preLen + 15 + 8 * resCount else preLen + 15
-  -- resource data blocks
-  if hasRes ∧ hasSheet ∧ sheetVer > 1 then throw .sheetVersion
-  let sheetBytes := sheetData v.sheet sheetVer
-  -- offsets of byte resources, in order
-  let mut off := headerSize
-  let mut resOffs : List Nat := []
-  let mut blocks : List Nat := []
-  if hasRes then
-    for r in v.res do
-      if r.isBytes then
-        resOffs := resOffs ++ [off]
-        blocks := blocks ++ le 4 r.data.length ++ r.data
-        off := off + 4 + r.data.length
-      else
-        resOffs := resOffs ++ [0]
-  let sheetOff := off
-  if hasRes ∧ hasSheet then
-    blocks := blocks ++ le 4 sheetBytes.length ++ sheetBytes
-    off := off + 4 + sheetBytes.length
-  -- images
-  let v ← applyCompute v 4      -- `self.compute_mipmaps()` with the default (bilinear) filter
-  let frames := v.frames
-  let low : FrameM := { v.low with data := some (v.low.data.getD (blank v.low.w v.low.h)) }  -- `_low_res.load()`
-  let lowOff := off
-  let lowBytes ← (if v.lowFmt ≠ fmtNone then encodeFrame v.lowFmt low else pure [])
-  let highOff := lowOff + lowBytes.length
-  let dseqW := depthSeq v.flags minor v.depth
-  let mut high : List Nat := []
-  for k in fileKeys v.mipCount v.frameCount dseqW do
-    -- a cubemap created as 7.5+ has no sphere map (side 6): older versions get a blank one
-    let fr ← (match lookupFrame frames k with
-      | some fr => pure fr
-      | none =>
-        if k.2.1 = 6 ∧ v.flags &&& envmapFlag ≠ 0 then
-          pure (⟨max (v.width >>> k.2.2) 1, max (v.height >>> k.2.2) 1, none⟩ : FrameM)
-        else throw Err.key)
-    let bs ← encodeFrame v.fmt fr
-    high := high ++ bs
-  -- header
-  let hdr := [86, 84, 70, 0] ++ le 4 7 ++ le 4 minor ++ le 4 headerSize ++ le 2 v.width ++
-    le 2 v.height ++ le 4 v.flags ++ le 2 v.frameCount ++ le 2 v.firstFrame ++ zeros 4 ++ v.refl ++
-    zeros 4 ++ v.bump ++ le 4 (binValue v.fmt asw) ++ le 1 v.mipCount ++
-    le 4 (binValue v.lowFmt asw) ++ le 1 v.low.w ++ le 1 v.low.h ++
-    (if minor ≥ 2 then le 2 v.depth else [])
-  let resTable := if hasRes then
-      zeros 3 ++ le 4 resCount ++ zeros 8 ++
-      ((v.res.zip resOffs).flatMap fun (r, o) =>
-        if r.isBytes then r.id ++ [r.flags &&& 0xFD] ++ le 4 o
-        else r.id ++ [r.flags ||| 2] ++ le 4 r.ival) ++
-      idLow ++ [0] ++ le 4 lowOff ++ idHigh ++ [0] ++ le 4 highOff ++
-      (if hasSheet then idSheet ++ [0] ++ le 4 sheetOff else [])
-    else zeros 15
-  pure (hdr ++ resTable ++ blocks ++ lowBytes ++ high)
+  else if minor < 2 ∧ v.depth > 1 then throw .depthVersion
+  else if minor ≥ 3 ∧ hasSheetRes v ∧ sheetVer > 1 then throw .sheetVersion
+  else do
+    let v' ← applyCompute v 4      -- `self.compute_mipmaps()` with the default (bilinear) filter
+    assemble v' minor sheetVer asw
 
 /-! ## Reading -/
 
@@ -288,127 +355,203 @@ structure View where
   frames : List (Key × Nat × Nat × Nat)
   /-- RGBA16161616(F): only metadata is read, frames have no file position. -/
   headerOnly : Bool
-deriving Repr
+deriving DecidableEq, Repr
 
-def slice (bs : Array Nat) (off n : Nat) : Except Err (List Nat) :=
-  if off + n ≤ bs.size then pure (bs.extract off (off + n)).toList else throw .struct
+/-- split a byte string into consecutive fields of the given widths (`struct.unpack`): `none` when
+it is too short. Returns the fields and the rest. -/
+def splitW : List Nat → List Nat → Option (List (List Nat) × List Nat)
+  | [], l => some ([], l)
+  | w :: ws, l =>
+    if l.length < w then none
+    else match splitW ws (l.drop w) with
+      | some (fs, r) => some (l.take w :: fs, r)
+      | none => none
 
-def u (bs : Array Nat) (off n : Nat) : Except Err Nat := do pure (leDecode (← slice bs off n))
+/-- a 4-byte little-endian number at `off` (`struct.error` when the file is too short). -/
+def u32At (l : List Nat) (off : Nat) : Except Err Nat :=
+  if off + 4 ≤ l.length then pure (leDecode (slice l off 4)) else throw .struct
+
+/-- `frame_count` frames of a sheet sequence. -/
+def parseFrames (ver : Nat) : Nat → List Nat → Except Err (List SheetFrame × List Nat)
+  | 0, l => pure ([], l)
+  | n + 1, l =>
+    let cw := if ver = 0 then 16 else 64
+    if l.length < 4 + cw then throw .struct
+    else
+      let dur := l.take 4
+      let c := (l.drop 4).take cw
+      let fr : SheetFrame := if ver = 0 then ⟨dur, c ++ c ++ c ++ c⟩ else ⟨dur, c⟩
+      match parseFrames ver n (l.drop (4 + cw)) with
+      | .ok (fs, r) => pure (fr :: fs, r)
+      | .error e => throw e
+
+/-- `sequence_count` sequences; `seen` are the sequence numbers read so far. -/
+def parseSeqs (ver : Nat) : Nat → List Nat → List Nat → Except Err (List SheetSeq)
+  | 0, _, _ => pure []
+  | n + 1, seen, l =>
+    match splitW [4, 3, 1, 4, 4] l with
+    | none => throw .struct
+    | some (fs, r) =>
+      match fs with
+      | [num, _, clamp, fc, total] =>
+        if leDecode num ≥ 64 then throw .sheetBad
+        else if seen.contains (leDecode num) then throw .sheetBad
+        else match parseFrames ver (leDecode fc) r with
+          | .error e => throw e
+          | .ok (frames, r') =>
+            match parseSeqs ver n (leDecode num :: seen) r' with
+            | .error e => throw e
+            | .ok ss => pure (⟨leDecode num, leDecode clamp != 0, total, frames⟩ :: ss)
+      | _ => throw .struct
 
 /-- `SheetSequence.from_resource(data)`. -/
-def parseSheet (d : Array Nat) : Except Err (List SheetSeq) := do
-  let version ← u d 0 4
-  let count ← u d 4 4
-  if version > 1 then throw .sheetBad
-  if count > 64 then throw .sheetBad
-  let mut off := 8
-  let mut seqs : List SheetSeq := []
-  for _ in List.range count do
-    let num ← u d off 4
-    let clamp ← u d (off + 7) 1
-    let fc ← u d (off + 8) 4
-    let total ← slice d (off + 12) 4
-    off := off + 16
-    if num ≥ 64 then throw .sheetBad
-    if seqs.any (·.num == num) then throw .sheetBad
-    let mut frames : List SheetFrame := []
-    for _ in List.range fc do
-      let dur ← slice d off 4
-      off := off + 4
-      if version = 0 then
-        let c ← slice d off 16
-        frames := frames ++ [⟨dur, c ++ c ++ c ++ c⟩]
-        off := off + 16
-      else
-        let c ← slice d off 64
-        frames := frames ++ [⟨dur, c⟩]
-        off := off + 64
-    seqs := seqs ++ [⟨num, clamp != 0, total, frames⟩]
-  pure seqs
+def parseSheet (d : List Nat) : Except Err (List SheetSeq) :=
+  match splitW [4, 4] d with
+  | none => throw .struct
+  | some (fs, r) =>
+    match fs with
+    | [ver, count] =>
+      if leDecode ver > 1 then throw .sheetBad
+      else if leDecode count > 64 then throw .sheetBad
+      else parseSeqs (leDecode ver) (leDecode count) [] r
+    | _ => throw .struct
+
+/-- `num` entries of the resource table: (id, flags, data). -/
+def readEntries : Nat → List Nat → Except Err (List (List Nat × Nat × Nat))
+  | 0, _ => pure []
+  | n + 1, l =>
+    match splitW [3, 1, 4] l with
+    | none => throw .struct
+    | some (fs, r) =>
+      match fs with
+      | [id, fl, dat] =>
+        match readEntries n r with
+        | .error e => throw e
+        | .ok es => pure ((id, leDecode fl, leDecode dat) :: es)
+      | _ => throw .struct
+
+/-- the loop over the entries: thumbnail and image offsets are taken out, everything else is kept
+(a repeated id is an error). State: resources so far (in order), low offset, high offset. -/
+def procEntries : List (List Nat × Nat × Nat) → List Res → Option Nat → Option Nat →
+    Except Err (List Res × Option Nat × Option Nat)
+  | [], res, lo, hi => pure (res, lo, hi)
+  | (id, fl, dat) :: es, res, lo, hi =>
+    if res.any (·.id == id) then throw .dupRes
+    else if id == idLow then procEntries es res (some dat) hi
+    else if id == idHigh then procEntries es res lo (some dat)
+    else procEntries es (res ++ [⟨id, fl, false, dat, []⟩]) lo hi
+
+/-- fetch the data block of a resource that is not inline: 4-byte size at the stored offset, then
+`file.read(size)`. -/
+def resolveRes (file : List Nat) (r : Res) : Except Err Res :=
+  if r.flags &&& 2 = 0 then
+    match u32At file r.ival with
+    | .error e => throw e
+    | .ok size => pure { r with isBytes := true, ival := 0, data := slice file (r.ival + 4) size }
+  else pure r
+
+def resolveAll (file : List Nat) : List Res → Except Err (List Res)
+  | [] => pure []
+  | r :: rs =>
+    match resolveRes file r with
+    | .error e => throw e
+    | .ok r' => match resolveAll file rs with
+      | .error e => throw e
+      | .ok rs' => pure (r' :: rs')
+
+/-- the resource part of `VTF.read` (7.3+): `rest` are the bytes after the depth field. -/
+def readResources (file rest : List Nat) :
+    Except Err (List Res × List SheetSeq × Option Nat × Option Nat) :=
+  match splitW [3, 4, 8] rest with
+  | none => throw .struct
+  | some (fs, r) =>
+    match fs with
+    | [_, num, _] =>
+      match readEntries (leDecode num) r with
+      | .error e => throw e
+      | .ok es =>
+        match procEntries es [] none none with
+        | .error e => throw e
+        | .ok (res, lo, hi) =>
+          match resolveAll file res with
+          | .error e => throw e
+          | .ok res' =>
+            match res'.find? (·.id == idSheet) with
+            | some s =>
+              if !s.isBytes then throw .sheetBad
+              else match parseSheet s.data with
+                | .error e => throw e
+                | .ok sheet => pure (res'.filter (·.id != idSheet), sheet, lo, hi)
+            | none => pure (res', [], lo, hi)
+    | _ => throw .struct
+
+/-- widths of the header fields after signature and version. -/
+def hdrWidths (minor : Nat) : List Nat :=
+  [4, 2, 2, 4, 2, 2, 4, 12, 4, 4, 4, 1, 4, 1, 1] ++ (if minor ≥ 2 then [2] else [])
 
 /-- `VTF.read(file)` (not `header_only`), up to the frame table. -/
-def readFile (l : List Nat) : Except Err View := do
-  let bs := l.toArray
-  let sig ← (slice bs 0 4 |>.mapError fun _ => Err.signature)
-  if sig ≠ [86, 84, 70, 0] then throw .signature
-  let major ← u bs 4 4
-  let minor ← u bs 8 4
-  if major ≠ 7 ∨ minor > 5 then throw .version
-  let _ ← slice bs 12 51
-  let headerSize ← u bs 12 4
-  let width ← u bs 16 2
-  let height ← u bs 18 2
-  let flags ← u bs 20 4
-  let frameCount ← u bs 24 2
-  let firstFrame ← u bs 26 2
-  let refl ← slice bs 32 12
-  let bump ← slice bs 48 4
-  let hf ← u bs 52 4
-  let mipCount ← u bs 56 1
-  let lf ← u bs 57 4
-  let lowW ← u bs 61 1
-  let lowH ← u bs 62 1
-  let some fmt := formatOrder hf | throw .key
-  let some lowFmt := formatOrder lf | throw .key
-  if fmt = fmtNone then throw .noFormat
-  let mut depth := 1
-  if minor ≥ 2 then depth ← u bs 63 2
-  if depth = 0 then depth := 1
-  let mut lowOff : Option Nat := none
-  let mut highOff : Option Nat := none
-  let mut res : List Res := []
-  let mut sheet : List SheetSeq := []
-  if minor ≥ 3 then
-    let base := 63 + 2
-    let _ ← slice bs base 15
-    let num ← u bs (base + 3) 4
-    let mut pos := base + 15
-    for _ in List.range num do
-      let id ← slice bs pos 3
-      let fl ← u bs (pos + 3) 1
-      let dat ← u bs (pos + 4) 4
-      pos := pos + 8
-      if res.any (·.id == id) then throw .dupRes
-      if id == idLow then lowOff := some dat
-      else if id == idHigh then highOff := some dat
-      else res := res ++ [⟨id, fl, false, dat, []⟩]
-    let mut res2 : List Res := []
-    for r in res do
-      if r.flags &&& 2 = 0 then
-        let size ← u bs r.ival 4
-        -- file.read(size) may return fewer bytes at end of file
-        let d := (bs.extract (r.ival + 4) (r.ival + 4 + size)).toList
-        res2 := res2 ++ [{ r with isBytes := true, ival := 0, data := d }]
-      else res2 := res2 ++ [r]
-    res := res2
-    match res.find? (·.id == idSheet) with
-    | some r =>
-      res := res.filter (·.id != idSheet)
-      if !r.isBytes then throw .sheetBad
-      sheet ← parseSheet r.data.toArray
-    | none => pure ()
-  else
-    lowOff := some headerSize
-    highOff := some (headerSize + frameSize (fmtOf lowFmt) lowW lowH)
-  let some high := highOff | throw .noHigh
-  let headerOnly : Bool := fmt = 24 ∨ fmt = 25
-  if lowFmt ≠ fmtNone ∧ !headerOnly ∧ lowOff.isNone then throw .noLow
-  let dseq := depthSeq flags minor depth
-  let frames := layoutFrom (frameSize (fmtOf fmt)) (readerDims width height)
-    (fileKeys mipCount frameCount dseq) high
-  pure { verMinor := minor, headerSize, width, height, flags, frameCount, firstFrame, refl, bump,
-         fmt, mipCount, lowFmt, lowW, lowH, depth, res, sheet,
-         lowOff := if lowFmt ≠ fmtNone then lowOff else none, frames, headerOnly }
+def readFile (l : List Nat) : Except Err View :=
+  match splitW [4, 4, 4] l with
+  | none => throw .signature
+  | some (f0, r0) =>
+    match f0 with
+    | [sig, major, minorB] =>
+      let minor := leDecode minorB
+      if sig ≠ [86, 84, 70, 0] then throw .signature
+      else if leDecode major ≠ 7 ∨ minor > 5 then throw .version
+      else match splitW (hdrWidths minor) r0 with
+        | none => throw .struct
+        | some (f1, r1) =>
+          match f1 with
+          | hs :: w :: h :: fl :: fc :: ff :: _ :: refl :: _ :: bump :: hf :: mc :: lf :: lw :: lh :: dep =>
+            match formatOrder (leDecode hf), formatOrder (leDecode lf) with
+            | some fmt, some lowFmt =>
+              if fmt = fmtNone then throw .noFormat
+              else
+                let depth0 := match dep with
+                  | [d] => leDecode d
+                  | _ => 1
+                let depth := if depth0 = 0 then 1 else depth0
+                let headerSize := leDecode hs
+                let width := leDecode w
+                let height := leDecode h
+                let flags := leDecode fl
+                let lowW := leDecode lw
+                let lowH := leDecode lh
+                let rr : Except Err (List Res × List SheetSeq × Option Nat × Option Nat) :=
+                  if minor ≥ 3 then readResources l r1
+                  else pure ([], [], some headerSize,
+                             some (headerSize + frameSize (fmtOf lowFmt) lowW lowH))
+                match rr with
+                | .error e => throw e
+                | .ok (res, sheet, lo, hi) =>
+                  match hi with
+                  | none => throw .noHigh
+                  | some high =>
+                    let headerOnly : Bool := fmt = 24 ∨ fmt = 25
+                    if lowFmt ≠ fmtNone ∧ !headerOnly ∧ lo.isNone then throw .noLow
+                    else
+                      let mipCount := leDecode mc
+                      let frameCount := leDecode fc
+                      pure { verMinor := minor, headerSize, width, height, flags, frameCount,
+                             firstFrame := leDecode ff, refl, bump, fmt, mipCount, lowFmt, lowW, lowH,
+                             depth, res, sheet,
+                             lowOff := if lowFmt ≠ fmtNone then lo else none,
+                             frames := layoutFrom (frameSize (fmtOf fmt)) (readerDims width height)
+                               (fileKeys mipCount frameCount (depthSeq flags minor depth)) high,
+                             headerOnly }
+            | _, _ => throw .key
+          | _ => throw .struct
+    | _ => throw .signature
 
 /-- `Frame.load()` of a lazily read frame: decode `frame_size` bytes at `off`. -/
-def decodeAt (bs : Array Nat) (fmt w h off : Nat) : Except Err (List Nat) := do
+def decodeAt (file : List Nat) (fmt w h off : Nat) : Except Err (List Nat) :=
   let n := frameSize (fmtOf fmt) w h
-  let d := (bs.extract off (off + n)).toList
+  let d := slice file off n
   if d.length ≠ n then throw .buffer
-  let c := codecOf fmt
-  if !c.hasLoad then throw .notImpl
-  if c.load.isEmpty then throw .notImpl   -- block formats are not modelled
-  pure (loadImg c d)
+  else if !(codecOf fmt).hasLoad then throw .notImpl
+  else if (codecOf fmt).load.isEmpty then throw .notImpl   -- block formats are not modelled
+  else pure (loadImg (codecOf fmt) d)
 
 /-! ## Table-like constants the layout above relies on (compared with `Gen.Vtf` in `Props/C15`) -/
 
